@@ -50,6 +50,48 @@ class MEv(Interval):
     id: int
 
 
+@dataclass(frozen=True, kw_only=True)
+class MOcc(Interval):
+    """occurrences of the stored series of a history case"""
+    id: int = 0
+    recurring_event_id: str | None = None
+
+
+OCC_ID = 77
+
+
+def occurrences(pat, lo, hi):
+    """daily UTC pattern [k_days, start_of_day, duration]: the occurrences (as [s, e, OCC_ID]) whose
+    start lies in [lo, hi]"""
+    k, sod, dur = pat
+    out = []
+    d = (lo - sod) // DAY
+    while d * DAY + sod <= hi:
+        if d % k == 0 and d * DAY + sod >= lo:
+            out.append([d * DAY + sod, d * DAY + sod + dur, OCC_ID])
+        d += 1
+    return out
+
+
+def history_state(case, a, b):
+    """The events a MemoryTimeline holds AFTER the writes of a history case, as far as a metric over
+    [a, b] can see them: what the metric asked after the writes must be computed from."""
+    h = case["history"]
+    evs = [list(e) for e in case["evs"]]
+    lo, hi = min(a, b) - 3 * DAY, max(a, b) + 3 * DAY
+    occ = occurrences(h["pattern"], lo, hi) if h.get("pattern") else []
+    for w in h["writes"]:
+        if w[0] == "add":
+            evs.append(list(w[1]))
+        elif w[0] == "remove_static" and evs:
+            evs.pop(w[1] % len(evs))
+        elif w[0] == "remove_occ":
+            inside = [o for o in occ if o[0] < max(a, b) and o[1] > min(a, b)]
+            if inside:
+                occ.remove(inside[w[1] % len(inside)])
+    return evs + occ
+
+
 # --------------------------------------------------------------------------------------------
 # zone tables
 
@@ -172,7 +214,13 @@ FUNCS = {"total": M.total_duration, "count": M.count_intervals, "ratio": M.cover
 
 
 def py_bound(b):
-    return b if isinstance(b, int) else date(*b)
+    """int | [y, m, d] (a date) | ["dt", ts, zone] (the instant ts as an aware datetime of that zone —
+    which need not be the zone the metric is asked for)"""
+    if isinstance(b, int):
+        return b
+    if b and b[0] == "dt":
+        return datetime.fromtimestamp(b[1], ZoneInfo(b[2]))
+    return date(*b)
 
 
 def mk_events(evs):
@@ -206,10 +254,42 @@ def obs_ivl(r):
 def run_case(case):
     try:
         tz = case["zone"]
-        tl = timeline(*mk_events(case["evs"]))
         start, end = py_bound(case["start"]), py_bound(case["end"])
         a = M._coerce_bound(start, tz)
         b = M._coerce_bound(end, tz)
+        if case.get("history"):
+            # a MemoryTimeline asked the same metric before and after being written to: the second
+            # answer must be computed from what the timeline holds then
+            from calgebra.mutable.memory import MemoryTimeline
+            from calgebra.recurrence import RecurringPattern
+            h = case["history"]
+            tl = MemoryTimeline()
+            stored = mk_events(case["evs"])
+            for ev in stored:
+                tl.add(ev)
+            if h.get("pattern"):
+                k, sod, dur = h["pattern"]
+                tl.add(RecurringPattern("daily", interval=k, start=sod, duration=dur, tz="UTC",
+                                        interval_class=MOcc, id=OCC_ID))
+            kw0 = dict(period=case["period"], tz=tz)
+            if case["fn"] in ("total", "count", "ratio"):
+                kw0["group_by"] = case["group"]
+            FUNCS[case["fn"]](tl, start, end, **kw0)                       # first answer (discarded)
+            for w in h["writes"]:
+                if w[0] == "add":
+                    ev = mk_events([w[1]])[0]
+                    stored.append(ev)
+                    tl.add(ev)
+                elif w[0] == "remove_static" and stored:
+                    tl.remove(stored.pop(w[1] % len(stored)))
+                elif w[0] == "remove_occ":
+                    lo_, hi_ = min(a, b), max(a, b)
+                    inside = [o for o in tl.fetch(lo_ - 3 * DAY, hi_ + 3 * DAY)
+                              if getattr(o, "recurring_event_id", None) and o.start < hi_ and o.end > lo_]
+                    if inside:
+                        tl.remove(inside[w[1] % len(inside)])
+        else:
+            tl = timeline(*mk_events(case["evs"]))
         wins = [[wall_secs(dt), ws, we] for dt, ws, we in M._period_windows_with_dt(a, b, case["period"], tz)]
         kw = dict(period=case["period"], tz=tz)
         if case["fn"] in ("total", "count", "ratio"):
@@ -243,12 +323,15 @@ VALID_GROUP = {"hour": ["hour_of_day"], "day": ["day_of_week", "day_of_month"], 
 def coq_bound(b):
     if isinstance(b, int):
         return f"(BInt {cz(b)})"
+    if b and b[0] == "dt":
+        return f"(BInt {cz(b[1])})"          # an aware datetime is the instant it denotes, whatever its zone
     y, m, d = b
     return f"(BDate {y} {m} {d})"
 
 
 def coq_mcase(case, obs):
-    evs = clist([civl(e) for e in case["evs"]])
+    evs_ = history_state(case, obs["a"], obs["b"]) if case.get("history") else case["evs"]
+    evs = clist([civl(e) for e in evs_])
     wins = clist([f"({cz(l)}, {cz(s)}, {cz(e)})" for l, s, e in obs["wins"]])
     ints = rats = ivls = "[]"
     if case["fn"] == "ratio":
@@ -330,6 +413,11 @@ class MetricsGen:
             if eb == sb and r.random() < 0.8:
                 d = date(*eb) + timedelta(days=r.choice([1, 1, 2, 7, 31]))
                 eb = [d.year, d.month, d.day]
+        # an int bound may equally be given as an aware datetime, in any zone
+        if isinstance(sb, int) and r.random() < 0.3:
+            sb = ["dt", sb, r.choice(ZONES)]
+        if isinstance(eb, int) and r.random() < 0.2:
+            eb = ["dt", eb, r.choice(ZONES)]
         return sb, eb, a, b
 
     def events(self, a, b, period):
@@ -383,7 +471,24 @@ class MetricsGen:
             group = r.choice(VALID_GROUP[period])
         sb, eb, a, b = self.range_(zone, period)
         evs = self.events(a, b, period)
-        return dict(zone=zone, evs=evs, fn=fn, start=sb, end=eb, period=period, group=group)
+        case = dict(zone=zone, evs=evs, fn=fn, start=sb, end=eb, period=period, group=group)
+        if r.random() < 0.1 and period in ("hour", "day", "full") and b - a <= 12 * DAY:
+            # the timeline is a MemoryTimeline (with a daily series) that is written to between two
+            # identical metric calls
+            evs[:] = [e for e in evs if e[0] is not None and e[1] is not None and e[0] < e[1]]
+            pat = [r.choice([1, 1, 2]), r.choice([0, 9 * 3600, 23 * 3600]), r.choice([3600, 8 * 3600, DAY + 3600])]
+            writes = []
+            for _ in range(r.choice([1, 1, 2])):
+                k = r.random()
+                if k < 0.45:
+                    writes.append(["remove_occ", r.randrange(0, 50)])
+                elif k < 0.75:
+                    s0 = min(a, b) + r.randrange(0, max(1, abs(b - a)))
+                    writes.append(["add", [s0, s0 + r.choice([60, 3600, 5 * 3600]), 90 + len(writes)]])
+                else:
+                    writes.append(["remove_static", r.randrange(0, 50)])
+            case["history"] = dict(pattern=pat, writes=writes)
+        return case
 
 
 def coerced(case):
@@ -516,18 +621,24 @@ class MetricsFamily(Family):
 
     def describe(self, case):
         return (f"{case['fn']}(timeline{[tuple(e) for e in case['evs']]}, start={case['start']}, end={case['end']}, "
-                f"period={case['period']!r}, tz={case['zone']!r}, group_by={case.get('group')!r})")
+                f"period={case['period']!r}, tz={case['zone']!r}, group_by={case.get('group')!r})"
+                + (f" on a MemoryTimeline with daily series {case['history']['pattern']}, asked again after "
+                   f"{case['history']['writes']}" if case.get("history") else ""))
 
     def nontrivial(self, case, obs):
         return any(v not in (0, None, [0, 1]) for _, v in obs["out"])
 
     def distribution(self, case, dist):
+        if case.get("history"):
+            dist["memory_timeline_written_between_two_calls"] += 1
         dist[f"period_{case['period']}"] += 1
         dist[f"fn_{case['fn']}"] += 1
         dist[f"zone_{case['zone']}"] += 1
         if case.get("group"):
             dist[f"group_{case['group']}"] += 1
-        if not isinstance(case["start"], int) or not isinstance(case["end"], int):
+        if any(isinstance(x, list) and x[0] == "dt" for x in (case["start"], case["end"])):
+            dist["aware_datetime_bound"] += 1
+        if any(isinstance(x, list) and x[0] != "dt" for x in (case["start"], case["end"])):
             dist["date_bound"] += 1
         if any(e[0] is None or e[1] is None for e in case["evs"]):
             dist["has_unbounded_event"] += 1
